@@ -654,6 +654,42 @@ struct SDrv {
         }
     }
 
+    // mixed-signedness comparisons (signed T against its unsigned counterpart, both orders)
+    template<class TT = T>
+    typename std::enable_if<std::is_signed<TT>::value>::type mixcmp() {
+        typedef typename std::make_unsigned<T>::type U;
+        set_label(tn, "mixcmp");
+        for (const std::pair<T, T>& p : P) {
+            T a = p.first;
+            U b = U(p.second);
+            opaque(a);
+            opaque(b);
+            bool r[12] = {};
+            int sg = guarded([&] {
+                r[0] = avel::cmp_equal(a, b); r[1] = avel::cmp_not_equal(a, b); r[2] = avel::cmp_less(a, b);
+                r[3] = avel::cmp_less_equal(a, b); r[4] = avel::cmp_greater(a, b); r[5] = avel::cmp_greater_equal(a, b);
+                r[6] = avel::cmp_equal(b, a); r[7] = avel::cmp_not_equal(b, a); r[8] = avel::cmp_less(b, a);
+                r[9] = avel::cmp_less_equal(b, a); r[10] = avel::cmp_greater(b, a); r[11] = avel::cmp_greater_equal(b, a);
+            });
+            static const char* names[6] = {"cmp_equal", "cmp_not_equal", "cmp_less", "cmp_less_equal", "cmp_greater", "cmp_greater_equal"};
+            for (int i = 0; i < 6; ++i) {
+                Fact f1(names[i], 'i');
+                f1.val("a", p.first).val("b", U(p.second)).num("r", sg ? 0 : r[i]).signal(sg);
+                emit_kb(f1, 'u');
+                Fact f2(names[i], 'u');
+                f2.val("a", U(p.second)).val("b", p.first).num("r", sg ? 0 : r[6 + i]).signal(sg);
+                emit_kb(f2, 'i');
+            }
+        }
+    }
+    template<class TT = T>
+    typename std::enable_if<!std::is_signed<TT>::value>::type mixcmp() {}
+    void emit_kb(Fact& f, char kb) {
+        // the second operand's kind travels as a one-byte field
+        f.val("kbv", kb);
+        emit(f, tn, 0, "scalar");
+    }
+
     void bits() {  // scalar rotations
         std::vector<T> vals = (sizeof(T) == 1 || g_tier) ? U1 : lattice<T>();
         std::vector<long long> rot;
@@ -698,7 +734,9 @@ int main(int argc, char** argv) {
         else if (family == "bitfn") d.bitfn();                                   \
         else if (family == "select") d.select();                                 \
     }
-    VH_INT_TYPES(RUN_V)
+    if (!std::getenv("VH_SCALAR_ONLY")) {
+        VH_INT_TYPES(RUN_V)
+    }
 
 #define RUN_S(T, NAME)                                                           \
     {                                                                            \
@@ -706,6 +744,7 @@ int main(int argc, char** argv) {
         if (family == "bitfn") d.bitfn();                                        \
         else if (family == "select") d.select();                                 \
         else if (family == "bits") d.bits();                                     \
+        else if (family == "mixcmp") d.mixcmp();                                 \
     }
     VH_INT_SCALARS(RUN_S)
 
